@@ -39,6 +39,7 @@ def run(ctx):
     uc = UserCode(prog)
     ctx.rule("R1.scope-obligation", "lifetime-erasing transmute + cross-thread hand-off => no exit (return or unwind) before all result channels are drained", floor=4)
     ctx.rule("R2.call-count-shape", "per-thread closure: prepare_thread once outside loops; prepare_iter / iter body inside exactly one loop each bounded by iterations; wrappers bracket the loop; barrier first", floor=6)
+    ctx.rule("R4.builder-carries-configuration", "every stage transition of the run builder derives its result from `self` and copies each carried field (groups, callbacks) from the same-named field of the previous stage", floor=10)
     ctx.rule("R3.grouping", "Barrier::new(thread_count); group indexes = repeat_n(group, threads_per_group) over 0..groups; remainder assertion dominates", floor=3)
 
     # ---------------- R1
@@ -105,6 +106,11 @@ def run(ctx):
                         if none_t:
                             exhausted = b.reachable(none_t, unwind=True, avoid=[nb])
                             drained_ok = True
+        # the collection loop runs to exhaustion of the receiver list (no break / truncation)
+        if recvs:
+            from ..analysis import loop_visits_all
+            okv, dv = loop_visits_all(b, recvs[0])
+            ctx.ob("R1.scope-obligation", f"{short(b.key)}|collection-loop-exhaustive", okv, b.loc(), dv)
         # (a) normal return only via exhaustion
         rets = b.exits(("return",))
         after_hand = b.reachable([x for h in hand for x in b.term_succ(h, False)], unwind=False)
@@ -138,6 +144,7 @@ def run(ctx):
                       ": other workers may still run the borrowed closure (use after return)"))
         ctx.extra["r1_panicky_sites_checked"] = n_sites
 
+    builder_rules(ctx, prog)
     # ---------------- R2 / R3
     ex = prog.one("run_configured::ConfiguredRun::execute_on")
     if ex is None:
@@ -306,3 +313,41 @@ def drain_guard_types(prog):
                 if t["callee"].get("method") == "recv" and b.in_loop(bb):
                     out.add(b.impl_adt)
     return out
+
+
+def builder_rules(ctx, prog):
+    RID = "R4.builder-carries-configuration"
+    n = 0
+    for b in prog.bodies:
+        if "::configure::" not in b.key or b.is_closure or b.impl_trait or "::tests" in b.key or b.arg_count < 1:
+            continue
+        self_ty = b.local_ty(1)
+        if self_ty["k"] != "adt" or "::configure::" not in self_ty["s"]:
+            continue    # only by-value `self` stage transitions
+        self_adt = strip_generics(self_ty["s"])
+        adt = prog.adts.get(self_adt)
+        if adt is None:
+            continue
+        self_fields = [f["name"] for f in adt["variants"][0]["fields"]]
+        n += 1
+        ctx.fn(b)
+        rsl = Slice(b).run({"k": "copy", "place": {"l": 0, "p": []}})
+        carried = [f for f in self_fields if f != b.name]
+        ok = 1 in rsl["args"] or not carried
+        det = [f"result derives from self: {1 in rsl['args']} (carried fields: {carried})"]
+        for blk in b.blocks:
+            for st in blk.stmts:
+                if st["k"] == "assign" and st["rv"]["k"] == "aggr" and "::configure::" in str(st["rv"].get("adt", "")):
+                    names = st["rv"].get("fields") or []
+                    for i, f in enumerate(names):
+                        if f not in self_fields:
+                            continue
+                        sl = Slice(b).run(st["rv"]["ops"][i])
+                        from_self = any(x == f"{self_adt}::{f}" for x in sl["fields"])
+                        is_setter = (b.name == f) and bool(sl["args"] - {1})
+                        if not (from_self or is_setter):
+                            ok = False
+                            det.append(f"field `{f}` of the next stage is not taken from self.{f}")
+        ctx.ob(RID, f"{self_adt.split('::')[-1]}::{b.name}", ok, b.loc(), "; ".join(det))
+    if n == 0:
+        ctx.missing(RID, "by-value builder methods in par_bench::configure")
